@@ -165,6 +165,9 @@ func TestVerif_C02_ReadAuth(t *testing.T) {
 	nReads := 0
 	runPass := func(pass string) {
 		for _, in := range insts {
+			if pass == "written" && !blipRun && in.idx >= blipAlso {
+				continue
+			}
 			in.realCur = vC02RealCurrent(t, rt, in)
 			if pass == "warm" {
 				vC02Warm(t, rt, in) // again right before the case's reads: every revision id / CV is resident now
@@ -173,7 +176,7 @@ func TestVerif_C02_ReadAuth(t *testing.T) {
 			us := append([]string{}, in.users...)
 			rnd.Shuffle(len(us), func(a, b int) { us[a], us[b] = us[b], us[a] })
 			for _, u := range us {
-				if !blipRun {
+				if !blipRun && pass != "written" {
 					for _, rd := range vC02Reads(in, full, rnd) {
 						tw.Emit(vC02Do(t, rt, in, pass, u, rd))
 						nReads++
@@ -191,14 +194,30 @@ func TestVerif_C02_ReadAuth(t *testing.T) {
 		}
 	}
 
-	// ---- phase 2: caches cold (revision cache re-created, channel cache restarted)
-	dbc.FlushRevisionCacheForTest()
+	// NewShardedLRURevisionCache divides the capacity in the SHARED options struct by the shard count every time it is
+	// called, so each FlushRevisionCacheForTest would leave a cache 16x smaller (after two flushes: one entry per shard,
+	// i.e. nothing stays resident and the "warm" pass is not warm).  Give the options a generous capacity before each flush.
+	flushRevCache := func() {
+		if o := dbc.Options.RevisionCacheOptions; o != nil {
+			o.MaxItemCount = 400000
+			o.MaxBytes = 0
+		}
+		dbc.FlushRevisionCacheForTest()
+	}
+
+	// ---- phase 2: caches as the writes left them (only the replication-protocol slice; no flush)
+	if blipAlso > 0 || blipRun {
+		runPass("written")
+	}
+
+	// ---- phase 3: caches cold (revision cache re-created, channel cache restarted)
+	flushRevCache()
 	dbc.FlushChannelCache(t)
 	rt.WaitForPendingChanges()
 	runPass("cold")
 
-	// ---- phase 3: caches flushed again, then warmed by a privileged reader (admin) before the users ask
-	dbc.FlushRevisionCacheForTest()
+	// ---- phase 4: caches flushed again, then warmed by a privileged reader (admin) before the users ask
+	flushRevCache()
 	dbc.FlushChannelCache(t)
 	rt.WaitForPendingChanges()
 	for _, in := range insts {
@@ -799,7 +818,6 @@ type vC02BlipProto struct {
 }
 
 var vC02BlipProtos = []vC02BlipProto{
-	{"v4+revocations", db.CBMobileReplicationV4, true, true},
 	{"v3", db.CBMobileReplicationV3, false, false},
 	{"v2", db.CBMobileReplicationV2, false, true},
 	{"v3+revocations", db.CBMobileReplicationV3, true, true},
